@@ -132,7 +132,9 @@ def gen_program(tape, phase, special, force_focus=None):
             break
         chosen.append(src[tape.draw(len(src), 'pool.pick')])
     nproc = 1 + tape.draw(2, 'nproc')
-    focus = tape.draw(8, 'focus')        # 4: log-heavy; 3/5: one hot key; 6: dataset churn; 7: fresh bare database
+    # half of the programs are general ones; 3/5: one hot key; 4: log-heavy; 6: dataset churn;
+    # 7: fresh bare database
+    focus = (0, 1, 2, 0, 1, 3, 5, 4, 6, 7)[tape.draw(10, 'focus')]
     if focus == 5:
         focus = 3
     if force_focus is not None:
